@@ -19,7 +19,7 @@
    engine (coq/C20/Nfa.v) requests, xsre in prefix tokens:
      e | f | c <cset> | s <n> HEX*n | q a b | l a b | b a (a = an l-spine spelled with the alias of or) | k g b | p b | o g b | r g m n b | u b | m b | x b | w b
        | n <anchor> | i b | j b      (n-ary forms as spines: (seq a b) = q a q b e ; (or a b) = l a l b f)
-     Y <xsre> | alphabet        ->  "<start> <nsave> <ngi or _> | id:kind:match:rule:n1:n2 ..."  the state table of compile_top;
+     Y <xsre> | alphabet        ->  "<start> <nsave> <ngi or _> wf<wf_x><ngs> | id:kind:match:rule:n1:n2 ..."  the state table of compile_top;
                                     kind = A accept, E epsilon, G<anchor>, C<0/1 per alphabet character>; rule n/l/r/g; x = none
      Z <0|1 search> <xsre> | s [| orders]  ->  the snapshots of loop_tr_ord (orders: per step the state ids in the order the code
                                     walked searchers1, "," within a step, ";" between steps; absent = insertion order) "i;acc;q=vec q=vec ..." separated by " | ", then " # " and the
@@ -208,7 +208,8 @@ let handle fields =
                  oi s.s_n1; oi s.s_n2 ] in
              String.concat " "
                ([string_of_int (int_of_nat nf.n_start); string_of_int (int_of_nat nf.n_nsave);
-                 (if nf.n_ngi = [] then "_" else String.concat "," (List.map (fun n -> string_of_int (int_of_nat n)) nf.n_ngi)); "|"]
+                 (if nf.n_ngi = [] then "_" else String.concat "," (List.map (fun n -> string_of_int (int_of_nat n)) nf.n_ngi));
+                 "wf" ^ b2s (wf_x x) ^ b2s (ngs x); "|"]
                 @ List.mapi st nf.n_tb)
          | _ -> "ERR fields")
     | "Z" :: sf :: rest ->
